@@ -14,6 +14,10 @@ time on the whole machine), parses CBMC's per-check results and classifies:
   undecided  extraction failed, the crate does not compile, timeout, out of memory, an unwinding assertion failed
              (bound too small), a cover is unreachable / missing (vacuous harness), no checks were produced
 
+Harnesses of tier "thorough" are skipped in the quick tier, listed in `skipped_in_quick`, and never counted.
+Nothing is cached across runs that could mask a source change: the crate text is regenerated from `repo`, and the build
+products of the generated crate and of every path dependency are deleted before each compile.
+
 See kani/README.md for the file formats.
 """
 import concurrent.futures as cf
@@ -522,9 +526,11 @@ def _run_kani_unit(here, repo, name, tier):
     # OLDER mtime than the previous build and would be taken as fresh.  Drop the fingerprints of the path dependencies (and of the
     # generated crate) so that they are rebuilt from the current text on every run; registry dependencies stay cached.
     for dn in list(cfg.get("path_deps", {})) + [meta["crate"]]:
-        for fp in glob.glob(os.path.join(meta["dir"], "target", "**", ".fingerprint", dn.replace("-", "_") + "-*"), recursive=True) + \
-                glob.glob(os.path.join(meta["dir"], "target", "**", ".fingerprint", dn + "-*"), recursive=True):
-            shutil.rmtree(fp, ignore_errors=True)
+        pats = [os.path.join(meta["dir"], "target", "**", ".fingerprint", dn + "-*"),  # classic target layout
+                os.path.join(meta["dir"], "target", "**", "debug", "build", dn)]  # per-package layout of the toolchain Kani 0.68 ships
+        for pat in pats:
+            for fp in glob.glob(pat, recursive=True):
+                shutil.rmtree(fp, ignore_errors=True)
     # step 0: compile once (crate + path dependencies); a compile error is a tool limit, never an alarm
     cc = ["cargo", "kani", "--only-codegen"] + _z_flags(cfg.get("kani_flags", []))
     c0 = _run(cc, meta["dir"], cfg.get("compile_timeout", 900), None)
